@@ -262,24 +262,25 @@ def eigsh(A, k=6, M=None, sigma=None, which='LM', OPinv=None, mode='normal', **k
     import scipy.sparse.linalg as spsla
     if not _sym(A, M):
         return spsla.eigsh(A, k=k, M=M, sigma=sigma, which=which, OPinv=OPinv, mode=mode, **kw)
-    return _arpack(A, k, M, sigma, OPinv, "eigsh", mode)
+    return _arpack(A, k, M, sigma, OPinv, "eigsh", mode, which=which, extra=kw)
 
 
 def eigs(A, k=6, M=None, sigma=None, which='LM', OPinv=None, **kw):
     import scipy.sparse.linalg as spsla
     if not _sym(A, M):
         return spsla.eigs(A, k=k, M=M, sigma=sigma, which=which, OPinv=OPinv, **kw)
-    return _arpack(A, k, M, sigma, OPinv, "eigs", "normal")
+    return _arpack(A, k, M, sigma, OPinv, "eigs", "normal", which=which, extra=kw)
 
 
-def _arpack(A, k, M, sigma, OPinv, kind, mode):
+def _arpack(A, k, M, sigma, OPinv, kind, mode, which='LM', extra=None):
     c = _ctx.current()
     regs = _reg(c).get("eig", [])
     if not regs:
         raise _nps.EncodingGap("scipy.sparse.linalg.%s without registered oracle eigenpairs" % kind)
     W, Q = regs[-1]
     c.stubs.add("scipy.sparse.linalg.%s (contract oracle: k arbitrary eigenpairs)" % kind)
-    c.arpack_calls = getattr(c, "arpack_calls", []) + [dict(kind=kind, A=A, k=k, M=M, sigma=sigma, OPinv=OPinv, mode=mode)]
+    c.arpack_calls = getattr(c, "arpack_calls", []) + [dict(kind=kind, A=A, k=k, M=M, sigma=sigma, OPinv=OPinv, mode=mode, which=which,
+                                                          extra=dict(extra or {}))]
     W = _np.asarray(W)[:k]
     Q = _np.asarray(Q)[:, :k]
     return wrap(_np.array(W, dtype=object)), wrap(_np.array(Q, dtype=object))
